@@ -1,5 +1,397 @@
-//! further operations (crypto, keys, validators, ...) — filled in as the model grows
+//! validators, claims, generic pipeline
 use crate::exec::R;
-pub fn exec_more(_t: &[&str]) -> R {
-    Err("bad-op".into())
+use crate::util::*;
+use paseto_core::PasetoError;
+use paseto_core::validation::{NoValidation, Validate};
+use paseto_json::jiff::Timestamp;
+use paseto_json::{ForAudience, ForSubject, FromIssuer, HasExpiry, RegisteredClaims, Time};
+use std::rc::Rc;
+use std::sync::Arc;
+use std::time::Duration;
+
+type DynV = Box<dyn Validate<Claims = RegisteredClaims>>;
+
+#[derive(Clone)]
+pub struct Wrap(pub RegisteredClaims, #[allow(dead_code)] pub u32);
+struct OnWrap(Box<dyn Validate<Claims = Wrap>>);
+impl Validate for OnWrap {
+    type Claims = RegisteredClaims;
+    fn validate(&self, c: &RegisteredClaims) -> Result<(), PasetoError> {
+        self.0.validate(&Wrap(c.clone(), 7))
+    }
+}
+
+pub fn ts(ns: i128) -> Option<Timestamp> {
+    Timestamp::from_nanosecond(ns).ok()
+}
+
+struct P<'a> {
+    s: &'a [u8],
+    i: usize,
+}
+impl<'a> P<'a> {
+    fn eat(&mut self, lit: &str) -> bool {
+        if self.s[self.i..].starts_with(lit.as_bytes()) {
+            self.i += lit.len();
+            true
+        } else {
+            false
+        }
+    }
+    fn int(&mut self) -> Option<i128> {
+        let st = self.i;
+        if self.i < self.s.len() && self.s[self.i] == b'-' {
+            self.i += 1;
+        }
+        while self.i < self.s.len() && self.s[self.i].is_ascii_digit() {
+            self.i += 1;
+        }
+        std::str::from_utf8(&self.s[st..self.i]).ok()?.parse().ok()
+    }
+    fn hexs(&mut self) -> Option<String> {
+        let st = self.i;
+        while self.i < self.s.len() && (self.s[self.i].is_ascii_hexdigit() || self.s[self.i] == b'-') {
+            self.i += 1;
+        }
+        String::from_utf8(unhex(std::str::from_utf8(&self.s[st..self.i]).ok()?)?).ok()
+    }
+    fn list(&mut self) -> Option<Vec<DynV>> {
+        let mut v = vec![];
+        if self.eat(")") {
+            return Some(v);
+        }
+        loop {
+            v.push(self.v()?);
+            if self.eat(")") {
+                return Some(v);
+            }
+            if !self.eat(";") {
+                return None;
+            }
+        }
+    }
+    fn v(&mut self) -> Option<DynV> {
+        if self.eat("and(") {
+            let a = self.v()?;
+            if !self.eat(",") {
+                return None;
+            }
+            let b = self.v()?;
+            if !self.eat(")") {
+                return None;
+            }
+            return Some(Box::new(a.and_then(b)));
+        }
+        if self.eat("all(") {
+            return Some(Box::new(self.list()?));
+        }
+        if self.eat("sl(") {
+            let b: Box<[DynV]> = self.list()?.into_boxed_slice();
+            return Some(Box::new(b));
+        }
+        if self.eat("box(") {
+            let a = self.v()?;
+            if !self.eat(")") {
+                return None;
+            }
+            return Some(Box::new(a));
+        }
+        if self.eat("rc(") {
+            let a = self.v()?;
+            if !self.eat(")") {
+                return None;
+            }
+            // Rc is !Send but `dyn Validate` has no Send bound
+            return Some(Box::new(Rc::new(a)));
+        }
+        if self.eat("arc(") {
+            let a = self.v()?;
+            if !self.eat(")") {
+                return None;
+            }
+            return Some(Box::new(Arc::new(a)));
+        }
+        if self.eat("map(") {
+            let a = self.v()?;
+            if !self.eat(")") {
+                return None;
+            }
+            let m = a.map(|w: &Wrap| &w.0);
+            return Some(Box::new(OnWrap(Box::new(m))));
+        }
+        if self.eat("T") {
+            let now = self.int()?;
+            return Some(Box::new(Time::valid_at(ts(now)?)));
+        }
+        if self.eat("L") {
+            let now = self.int()?;
+            if !self.eat(":") {
+                return None;
+            }
+            let l = self.int()?;
+            if l < 0 {
+                return None;
+            }
+            let l = l as u128;
+            let secs = u64::try_from(l / 1_000_000_000).ok()?;
+            let d = Duration::new(secs, (l % 1_000_000_000) as u32);
+            return Some(Box::new(Time::valid_at(ts(now)?).with_leeway(d)));
+        }
+        if self.eat("E") {
+            return Some(Box::new(HasExpiry));
+        }
+        if self.eat("S") {
+            return Some(Box::new(ForSubject(self.hexs()?)));
+        }
+        if self.eat("I") {
+            return Some(Box::new(FromIssuer(self.hexs()?)));
+        }
+        if self.eat("A") {
+            return Some(Box::new(ForAudience(self.hexs()?)));
+        }
+        if self.eat("N") {
+            return Some(Box::new(NoValidation::dangerous_no_validation()));
+        }
+        None
+    }
+}
+
+pub fn parse_validator(s: &str) -> Option<DynV> {
+    let mut p = P { s: s.as_bytes(), i: 0 };
+    let v = p.v()?;
+    if p.i == s.len() { Some(v) } else { None }
+}
+
+pub fn parse_claims(s: &str) -> Option<RegisteredClaims> {
+    let f: Vec<&str> = s.split(',').collect();
+    if f.len() != 7 {
+        return None;
+    }
+    let st = |x: &str| -> Option<Option<String>> {
+        if x == "~" { Some(None) } else { Some(Some(String::from_utf8(unhex(x)?).ok()?)) }
+    };
+    let t = |x: &str| -> Option<Option<Timestamp>> {
+        if x == "~" { Some(None) } else { Some(Some(ts(x.parse::<i128>().ok()?)?)) }
+    };
+    Some(RegisteredClaims { iss: st(f[0])?, sub: st(f[1])?, aud: st(f[2])?, exp: t(f[3])?, nbf: t(f[4])?, iat: t(f[5])?, jti: st(f[6])? })
+}
+
+pub fn show_claims(c: &RegisteredClaims) -> String {
+    let st = |x: &Option<String>| x.as_ref().map(|s| hex(s.as_bytes())).unwrap_or("~".into());
+    let t = |x: &Option<Timestamp>| x.map(|s| s.as_nanosecond().to_string()).unwrap_or("~".into());
+    format!("{},{},{},{},{},{},{}", st(&c.iss), st(&c.sub), st(&c.aud), t(&c.exp), t(&c.nbf), t(&c.iat), st(&c.jti))
+}
+
+// ---------------------------------------------------------------- JSON member lists
+
+#[derive(Clone, Debug)]
+pub enum JV {
+    Null,
+    Str(String, Option<i128>), // string and the annotation: what jiff parses it to
+    Num,
+    Bool,
+    Arr,
+    Obj,
+}
+
+pub fn parse_members(s: &str) -> Option<Vec<(String, JV)>> {
+    if s.is_empty() {
+        return Some(vec![]);
+    }
+    s.split(';')
+        .map(|m| {
+            let (k, v) = m.split_once('=')?;
+            let k = String::from_utf8(unhex(k)?).ok()?;
+            let v = match v.as_bytes()[0] {
+                b'n' => JV::Null,
+                b'i' => JV::Num,
+                b'b' => JV::Bool,
+                b'a' => JV::Arr,
+                b'o' => JV::Obj,
+                b's' => {
+                    let (h, a) = v[1..].split_once(':')?;
+                    let st = String::from_utf8(unhex(h)?).ok()?;
+                    let an = if a == "!" { None } else { Some(a.parse::<i128>().ok()?) };
+                    JV::Str(st, an)
+                }
+                _ => return None,
+            };
+            Some((k, v))
+        })
+        .collect()
+}
+
+fn json_str(s: &str, esc: u8, salt: usize) -> String {
+    match esc {
+        0 => serde_json::to_string(s).unwrap(),
+        1 => {
+            // every UTF-16 unit as \uXXXX
+            let mut o = String::from("\"");
+            for u in s.encode_utf16() {
+                o.push_str(&format!("\\u{u:04x}"));
+            }
+            o.push('"');
+            o
+        }
+        _ => {
+            let mut o = String::from("\"");
+            for (i, c) in s.chars().enumerate() {
+                if (i + salt) % 3 == 0 || (c as u32) < 0x20 || c == '"' || c == '\\' {
+                    let mut b = [0u16; 2];
+                    for u in c.encode_utf16(&mut b) {
+                        o.push_str(&format!("\\u{u:04X}"));
+                    }
+                } else {
+                    o.push(c);
+                }
+            }
+            o.push('"');
+            o
+        }
+    }
+}
+
+pub fn members_json(ms: &[(String, JV)], esc: u8) -> String {
+    let mut o = String::from("{");
+    for (i, (k, v)) in ms.iter().enumerate() {
+        if i > 0 {
+            o.push(',');
+        }
+        if esc == 2 && i % 2 == 1 {
+            o.push_str(" \n");
+        }
+        o.push_str(&json_str(k, esc, i));
+        o.push(':');
+        match v {
+            JV::Null => o.push_str("null"),
+            JV::Num => o.push_str("-12.5e3"),
+            JV::Bool => o.push_str("true"),
+            JV::Arr => o.push_str("[1,{\"iss\":\"inner\"},[]]"),
+            JV::Obj => o.push_str("{\"exp\":null,\"x\":[{}]}"),
+            JV::Str(s, _) => o.push_str(&json_str(s, esc, i + 1)),
+        }
+    }
+    o.push('}');
+    o
+}
+
+struct Members(Vec<(String, serde_json::Value)>);
+impl<'de> serde_core_shim::Deserialize<'de> for Members {
+    fn deserialize<D: serde_core_shim::Deserializer<'de>>(d: D) -> Result<Self, D::Error> {
+        struct Vis;
+        impl<'de> serde_core_shim::de::Visitor<'de> for Vis {
+            type Value = Members;
+            fn expecting(&self, f: &mut std::fmt::Formatter) -> std::fmt::Result {
+                f.write_str("object")
+            }
+            fn visit_map<A: serde_core_shim::de::MapAccess<'de>>(self, mut m: A) -> Result<Members, A::Error> {
+                let mut v = vec![];
+                while let Some((k, x)) = m.next_entry::<String, serde_json::Value>()? {
+                    v.push((k, x));
+                }
+                Ok(Members(v))
+            }
+        }
+        d.deserialize_map(Vis)
+    }
+}
+// serde_json re-exports the serde traits it was built with through its `Deserializer` bounds; we name them via serde_json::de
+mod serde_core_shim {
+    pub use serde_core::de;
+    pub use serde_core::{Deserialize, Deserializer};
+}
+
+fn claims_dec(esc: u8, top: &str) -> R {
+    use paseto_core::encodings::Payload;
+    let text = if let Some(ms) = top.strip_prefix("O:") {
+        let ms = parse_members(ms).ok_or("bad-op")?;
+        // honesty of the annotations carried by the op line (replays must not lie to the model)
+        for (_, v) in &ms {
+            if let JV::Str(s, a) = v {
+                let real = s.parse::<Timestamp>().ok().map(|t| t.as_nanosecond());
+                if real != *a {
+                    return Err("bad-op".into());
+                }
+            }
+        }
+        members_json(&ms, esc)
+    } else if let Some(raw) = top.strip_prefix("X:") {
+        String::from_utf8(unhex(raw).ok_or("bad-op")?).map_err(|_| "bad-op".to_string())?
+    } else {
+        return Err("bad-op".into());
+    };
+    let c = RegisteredClaims::decode(text.as_bytes()).map_err(|_| "payload".to_string())?;
+    // the value a generic JSON parser reads for each registered member
+    let generic: serde_json::Value = serde_json::from_str(&text).map_err(|_| "generic-parse-failed".to_string())?;
+    let gs = |k: &str| -> Result<Option<String>, ()> {
+        match generic.get(k) {
+            None | Some(serde_json::Value::Null) => Ok(None),
+            Some(serde_json::Value::String(s)) => Ok(Some(s.clone())),
+            _ => Err(()),
+        }
+    };
+    let gt = |k: &str| -> Result<Option<Timestamp>, ()> {
+        match gs(k)? {
+            None => Ok(None),
+            Some(s) => s.parse::<Timestamp>().map(Some).map_err(|_| ()),
+        }
+    };
+    let agree = gs("iss") == Ok(c.iss.clone())
+        && gs("sub") == Ok(c.sub.clone())
+        && gs("aud") == Ok(c.aud.clone())
+        && gs("jti") == Ok(c.jti.clone())
+        && gt("exp") == Ok(c.exp)
+        && gt("nbf") == Ok(c.nbf)
+        && gt("iat") == Ok(c.iat);
+    Ok(format!("{} gen={}", show_claims(&c), agree as u8))
+}
+
+fn claims_enc(cl: &str) -> R {
+    use paseto_core::encodings::Payload;
+    let c = parse_claims(cl).ok_or("bad-op")?;
+    let mut out = Vec::new();
+    c.clone().encode(&mut out).map_err(|_| "payload".to_string())?;
+    let ms: Members = serde_json::from_slice(&out).map_err(|_| "not-an-object".to_string())?;
+    let mut parts = vec![];
+    let mut rfc = true;
+    for (k, v) in &ms.0 {
+        let is_time = matches!(k.as_str(), "exp" | "nbf" | "iat");
+        let vs = match v {
+            serde_json::Value::String(s) if is_time => {
+                // RFC 3339, UTC: [-]YYYY-MM-DDTHH:MM:SS[.f]Z
+                let b = s.as_bytes();
+                let ok = s.ends_with('Z') && s.contains('T') && b.iter().all(|c| c.is_ascii_digit() || b"-:.TZ".contains(c));
+                rfc &= ok;
+                match s.parse::<Timestamp>() {
+                    Ok(t) => format!("t{}", t.as_nanosecond()),
+                    Err(_) => format!("s{}:!", hex(s.as_bytes())),
+                }
+            }
+            serde_json::Value::String(s) => format!("s{}", hex(s.as_bytes())),
+            serde_json::Value::Null => "n".into(),
+            _ => "other".into(),
+        };
+        parts.push(format!("{}={}", hex(k.as_bytes()), vs));
+    }
+    // decode(encode c) == c, on the implementation
+    let back = RegisteredClaims::decode(&out).map_err(|_| "payload".to_string())?;
+    let rt = show_claims(&back) == show_claims(&c);
+    Ok(format!("{} rfc3339={} rt={}", if parts.is_empty() { ".".to_string() } else { parts.join(";") }, rfc as u8, rt as u8))
+}
+
+pub fn exec_more(t: &[&str]) -> R {
+    let bad = || "bad-op".to_string();
+    match t[0] {
+        "val" => {
+            let v = parse_validator(t.get(1).ok_or_else(bad)?).ok_or_else(bad)?;
+            let c = parse_claims(t.get(2).ok_or_else(bad)?).ok_or_else(bad)?;
+            v.validate(&c).map(|_| "-".to_string()).map_err(|e| crate::be::err_name(&e).to_string())
+        }
+        "claims.dec" => {
+            let esc: u8 = t.get(1).ok_or_else(bad)?.parse().map_err(|_| bad())?;
+            claims_dec(esc, t.get(2).ok_or_else(bad)?)
+        }
+        "claims.enc" => claims_enc(t.get(1).ok_or_else(bad)?),
+        _ => crate::exec3::exec_more(t),
+    }
 }
